@@ -221,6 +221,8 @@ type violationMsg struct {
 	Worker int             `json:"worker"`
 	Run    int             `json:"run"`
 	Seed   uint64          `json:"seed"`
+	BaseSeed uint64        `json:"base_seed"`
+	Cold   bool            `json:"cold"`
 	V      violation       `json:"violation"`
 	File   json.RawMessage `json:"file"`
 }
@@ -241,7 +243,9 @@ func runWorker(bin string, args []string, gomaxprocs int, raceLog string) *worke
 		env = append(env, "GOMAXPROCS="+strconv.Itoa(gomaxprocs))
 	}
 	if raceLog != "" {
-		env = append(env, "GORACE=halt_on_error=0 log_path="+raceLog)
+		env = append(env, "GORACE=halt_on_error=0 atexit_sleep_ms=0 log_path="+raceLog)
+	} else {
+		env = append(env, "GORACE=halt_on_error=0 atexit_sleep_ms=0")
 	}
 	c.Env = env
 	var stderr bytes.Buffer
@@ -420,7 +424,17 @@ func runPass(b *build, prop string, seed uint64, secs float64, nWorkers int, rac
 	if race {
 		bin = b.Worker
 	}
-	outs := make([]*workerOut, nWorkers)
+	// Two kinds of worker process share the budget. Long-lived workers execute
+	// thousands of runs in one process (library state such as lazily built
+	// tables or caches carries over, as in a long-running service). Cold
+	// workers are many short-lived processes with a handful of runs each: the
+	// state right after process start is part of the history space, too
+	// ("restart" is the only crash this library can experience).
+	coldShare := 0.15
+	longSecs := secs * (1 - coldShare)
+	coldSecs := secs * coldShare
+	var mu sync.Mutex
+	var outs []*workerOut
 	var wg sync.WaitGroup
 	t0 := time.Now()
 	for w := 0; w < nWorkers; w++ {
@@ -431,7 +445,25 @@ func runPass(b *build, prop string, seed uint64, secs float64, nWorkers int, rac
 			if race {
 				raceLog = filepath.Join(b.Dir, fmt.Sprintf("race-w%d", w))
 			}
-			outs[w] = runWorker(bin, []string{"run", "-prop", prop, "-seed", fmt.Sprint(seed), "-worker", fmt.Sprint(w), "-secs", fmt.Sprint(secs), "-outdir", b.Dir}, 2, raceLog)
+			o := runWorker(bin, []string{"run", "-prop", prop, "-seed", fmt.Sprint(seed), "-worker", fmt.Sprint(w), "-secs", fmt.Sprint(longSecs), "-outdir", b.Dir}, 2, raceLog)
+			mu.Lock()
+			outs = append(outs, o)
+			mu.Unlock()
+			// cold phase
+			tc := time.Now()
+			for k := 0; time.Since(tc).Seconds() < coldSecs; k++ {
+				id := 100000 + k*nWorkers + w
+				if race {
+					raceLog = filepath.Join(b.Dir, fmt.Sprintf("race-c%d", id))
+				}
+				o := runWorker(bin, []string{"run", "-prop", prop, "-seed", fmt.Sprint(seed), "-worker", fmt.Sprint(id), "-runs", "6", "-outdir", b.Dir, "-cold"}, 2, raceLog)
+				mu.Lock()
+				outs = append(outs, o)
+				mu.Unlock()
+				if len(o.viol) > 0 {
+					break
+				}
+			}
 		}(w)
 	}
 	wg.Wait()
@@ -515,7 +547,8 @@ func runProperty(prop, tier string, seed uint64) int {
 
 	// ---- aggregate
 	agg := map[string]float64{}
-	var totalRuns, totalOps, nonTrivial float64
+	var totalRuns, totalOps, nonTrivial, coldRuns float64
+	var processes, coldProcesses int
 	distinct := map[uint64]struct{}{}
 	sigs := map[uint64]struct{}{}
 	pairs := map[string]bool{}
@@ -535,6 +568,11 @@ func runProperty(prop, tier string, seed uint64) int {
 				continue
 			}
 			totalRuns += num(o.stats, "runs")
+			processes++
+			if b, _ := o.stats["cold"].(bool); b {
+				coldProcesses++
+				coldRuns += num(o.stats, "runs")
+			}
 			totalOps += num(o.stats, "ops")
 			nonTrivial += num(o.stats, "nontrivial")
 			for _, grp := range []string{"sim", "probes"} {
@@ -546,7 +584,7 @@ func runProperty(prop, tier string, seed uint64) int {
 					}
 				}
 			}
-			for _, k := range []string{"o1_compared", "o1_calm", "o1_distinct_keys", "o1_resets", "eq_compared", "eq_states", "race_errors"} {
+			for _, k := range []string{"o1_compared", "o1_calm", "o1_distinct_keys", "o1_resets", "eq_compared", "eq_states", "race_errors", "ref_compared"} {
 				agg[k] += num(o.stats, k)
 			}
 			if m, ok := o.stats["policies"].(map[string]any); ok {
@@ -669,6 +707,13 @@ func runProperty(prop, tier string, seed uint64) int {
 		if outcomes[i].status == "confirmed" {
 			continue
 		}
+		if outcomes[i].status == "harness-race" {
+			fmt.Printf("HARNESS-TROUBLE class=race seed=%d: the reported race has no stack frame in library code (see %s): a defect of the simulator, not of the library\n", vm.Seed, outcomes[i].path)
+			if exit == 0 {
+				exit = 2
+			}
+			continue
+		}
 		if vm.V.Class == "race" {
 			// The monitor reported a race inside the batch (its reports have no
 			// false positives under the published edges) but a fresh process did
@@ -724,6 +769,7 @@ func runProperty(prop, tier string, seed uint64) int {
 		"o1_keys_compared":        int64(agg["o1_compared"]),
 		"o1_calm_replays":         int64(agg["o1_calm"]),
 		"o1_distinct_keys":        int64(agg["o1_distinct_keys"]),
+		"o1x_fresh_process_compares": int64(agg["ref_compared"]),
 		"model_checks":            int64(agg["probes.ModelChecks"]),
 		"successful_sets":         int64(agg["probes.SetOK"]),
 		"failed_sets":             int64(agg["probes.SetFail"]),
@@ -774,13 +820,16 @@ func runProperty(prop, tier string, seed uint64) int {
 			"aborted_runs":        aborts,
 			"determinism_selftest": det,
 			"workers":             nW,
+			"worker_processes":    processes,
+			"cold_start_processes": coldProcesses,
+			"cold_start_runs":     int64(coldRuns),
 			"toolchains":          toolchainList(builds),
 			"repo_head":           builds[0].Head,
 			"repo_dirty":          builds[0].Dirty,
 			"instrumented_src_sha256": builds[0].Instr.SrcHash,
 			"components": map[string]string{
 				"real": "every line of packages 20/30/31/40 of /repo's working tree (instrumented copy: import path of sync swapped, a point call before every statement), fmt, strings, math, the Go allocator and GC",
-				"stub": "package sync (Pool, Mutex, RWMutex, Once, Map, WaitGroup) and the choice of which caller goroutine runs",
+				"stub": "package sync (Pool, Mutex, RWMutex, Once, Map, WaitGroup), package sync/atomic (real operations behind a scheduling point) and the choice of which caller goroutine runs",
 				"not_modelled": "the real sync.Pool implementation (trusted to meet its documented contract)",
 			},
 			"race_monitor": race,
@@ -885,11 +934,30 @@ func minimiseAndVerify(b *build, prop string, vm violationMsg, seed uint64, race
 	final := filepath.Join(verifHome, "out", "replays", name)
 	minOut := filepath.Join(b.Dir, "min-"+name)
 	c := exec.Command(bin, "min", "-in", raw, "-out", minOut, "-secs", "30")
-	c.Env = append(goEnv(), "GORACE=halt_on_error=0 log_path=/dev/null")
+	c.Env = append(goEnv(), "GORACE=halt_on_error=0 atexit_sleep_ms=0 log_path=/dev/null")
 	out, _ := c.CombinedOutput()
 	src := raw
 	if _, err := os.Stat(minOut); err == nil {
 		src = minOut
+	} else if vm.V.Class != "race" && vm.Run > 0 && vm.Run <= 4000 {
+		// Not reproducible on its own: the library may carry state over from
+		// earlier runs of that worker process. Replay the whole prefix and let
+		// the minimiser find the runs that matter.
+		full := filepath.Join(b.Dir, "full-"+name)
+		dargs := []string{"dump", "-prop", prop, "-seed", fmt.Sprint(vm.BaseSeed), "-worker", fmt.Sprint(vm.Worker), "-upto", fmt.Sprint(vm.Run), "-class", vm.V.Class, "-out", full}
+		if vm.Cold {
+			dargs = append(dargs, "-cold")
+		}
+		d := exec.Command(bin, dargs...)
+		d.Env = goEnv()
+		if err := d.Run(); err == nil {
+			c2 := exec.Command(bin, "min", "-in", full, "-out", minOut, "-secs", "60")
+			c2.Env = append(goEnv(), "GORACE=halt_on_error=0 atexit_sleep_ms=0 log_path=/dev/null")
+			out, _ = c2.CombinedOutput()
+			if _, err := os.Stat(minOut); err == nil {
+				src = minOut
+			}
+		}
 	}
 	// assemble the replay file: plan(s) + what was observed + provenance
 	var pf map[string]any
@@ -941,6 +1009,15 @@ func minimiseAndVerify(b *build, prop string, vm violationMsg, seed uint64, race
 		}
 	}
 	pf["replay_confirmed"] = status == "confirmed"
+	if vm.V.Class == "race" && status == "confirmed" {
+		if matches, _ := filepath.Glob(raceLog + ".*"); len(matches) > 0 {
+			if t, err := os.ReadFile(matches[0]); err == nil && !raceTouchesLibrary(string(t)) {
+				// both sides of every reported race are simulator / harness code:
+				// that is a defect of this machinery, never of the library
+				status = "harness-race"
+			}
+		}
+	}
 	if matches, _ := filepath.Glob(raceLog + ".*"); len(matches) > 0 {
 		if t, err := os.ReadFile(matches[0]); err == nil {
 			pf["race_report"] = trunc(string(t), 6000)
@@ -949,6 +1026,17 @@ func minimiseAndVerify(b *build, prop string, vm violationMsg, seed uint64, race
 	data, _ = json.MarshalIndent(pf, "", " ")
 	os.WriteFile(final, data, 0o644)
 	return final, status
+}
+
+// raceTouchesLibrary reports whether some stack frame of a race report lies in
+// the library copy (a function of a go-cvss package other than verifsim).
+func raceTouchesLibrary(report string) bool {
+	for _, l := range strings.Split(report, "\n") {
+		if strings.HasPrefix(l, "  "+modPath+"/") && !strings.HasPrefix(l, "  "+modPath+"/verifsim/") {
+			return true
+		}
+	}
+	return false
 }
 
 func lastLineOf(b []byte) []byte {
